@@ -137,7 +137,9 @@ func (c *Ctx) CheckTotal(name string, inputLen int, pi *PanicInfo, alloc uint64)
 	if pi != nil {
 		c.Violation("panic", pi.Site, "%s panicked: %s\n%s", name, pi.Value, trimStack(pi.Stack))
 	}
-	if alloc > AllocBudget(inputLen) {
+	// (the memory bound is C10's clause alone; other properties' runs pass through here for
+	// the panic clause)
+	if alloc > AllocBudget(inputLen) && (c.Prop == "C10" || c.Prop == "C00") {
 		c.Violation("alloc", name, "%s allocated %d bytes on a %d-byte input (budget %d)", name, alloc, inputLen, AllocBudget(inputLen))
 	}
 }
@@ -148,4 +150,54 @@ func trimStack(s string) string {
 		lines = lines[:40]
 	}
 	return strings.Join(lines, "\n")
+}
+
+// MeasurePeak runs fn once more under a tight garbage collector (GOGC=10, so that
+// allocation churn is reclaimed promptly) while a sampler polls the heap, and
+// returns the highest heap size seen above the baseline: an estimate of the
+// PEAK live memory fn needs, as opposed to the cumulative allocation that
+// GuardAlloc reports. It is used to re-judge calls whose cumulative allocation
+// exceeded the budget: garbage produced and dropped along the way is not
+// "memory", a large buffer allocated from a declared length is. The sampler is a
+// real goroutine; the estimate only feeds a comparison with wide margins.
+func MeasurePeak(fn func()) uint64 {
+	old := debug.SetGCPercent(10)
+	defer debug.SetGCPercent(old)
+	runtime.GC()
+	var ms runtime.MemStats
+	runtime.ReadMemStats(&ms)
+	base := ms.HeapAlloc
+	var peak atomic.Uint64
+	stop := make(chan struct{})
+	done := make(chan struct{})
+	go func() {
+		defer close(done)
+		var s runtime.MemStats
+		for {
+			select {
+			case <-stop:
+				return
+			default:
+			}
+			runtime.ReadMemStats(&s)
+			if s.HeapAlloc > peak.Load() {
+				peak.Store(s.HeapAlloc)
+			}
+			time.Sleep(200 * time.Microsecond)
+		}
+	}()
+	func() {
+		defer func() { recover() }()
+		fn()
+	}()
+	close(stop)
+	<-done
+	runtime.ReadMemStats(&ms)
+	if ms.HeapAlloc > peak.Load() {
+		peak.Store(ms.HeapAlloc)
+	}
+	if peak.Load() < base {
+		return 0
+	}
+	return peak.Load() - base
 }
